@@ -172,17 +172,14 @@ theorem evalV_ideal (ρ : Nat → Int) :
         · exact tn_xorI W _ _
         · exact tn_lorI W _ _
   | .cond c a b, W, sg, hW, h => by
-    simp only [fitsV, Bool.and_eq_true, decide_eq_true_eq] at h
-    obtain ⟨⟨⟨⟨hc, hwc⟩, hrc⟩, ha⟩, hb⟩ := h
+    simp only [fitsV, Bool.and_eq_true] at h
+    obtain ⟨⟨hc, ha⟩, hb⟩ := h
     simp only [selfWidth] at hW
     simp only [evalV, ideal]
     rw [evalV_ideal ρ c _ _ (Nat.le_refl _) hc]
-    have hz := tn_eq_zero_iff hwc hrc
-    by_cases hi : ideal ρ c = 0
-    · rw [if_neg (by rw [ne_eq, not_not]; exact hz.2 hi), if_neg (by simpa using hi)]
-      exact evalV_ideal ρ b W sg (by omega) hb
-    · rw [if_pos (by intro hh; exact hi (hz.1 hh)), if_pos hi]
-      exact evalV_ideal ρ a W sg (by omega) ha
+    split
+    · exact evalV_ideal ρ a W sg (by omega) ha
+    · exact evalV_ideal ρ b W sg (by omega) hb
   | .psel a hi lo, W, sg, hW, h => by
     simp only [fitsV, Bool.and_eq_true, decide_eq_true_eq] at h
     obtain ⟨⟨⟨ha, hhi⟩, hlo⟩, hf⟩ := h
